@@ -27,6 +27,8 @@ type PtrV struct {
 	Root    types.Type  // type of the root object (pointee)
 	Path    []int       // field indices from the root
 	FreeVar bool        // the root is a variable captured by the closure under verification
+	Opaque  bool        // a pointer of unknown origin to a non-struct value: it may designate a
+	//                     struct field, so reads are arbitrary and writes forget every heap that can hold the type
 }
 
 type ClosureV struct {
